@@ -142,10 +142,11 @@ def parseDev (s : String) : Option Dev :=
     some ⟨s.contains 'u', s.contains 'q', s.contains 'v'⟩
   else none
 
-/-! literal-text regular expressions: optional `^`, letters/digits/space/underscore, optional `$`;
-anything else is reported as not compiling (the harness sends only such patterns, or invalid ones) -/
+/-! literal-text regular expressions: optional `^`, then letters/digits/space/underscore and bytes of
+multi-byte UTF-8 characters, optional `$`; anything else is reported as not compiling. The harness
+sends only such patterns (valid UTF-8) or patterns Go rejects (`(`). -/
 def isLit (b : UInt8) : Bool :=
-  (48 ≤ b && b ≤ 57) || (65 ≤ b && b ≤ 90) || (97 ≤ b && b ≤ 122) || b = 32 || b = 95
+  (48 ≤ b && b ≤ 57) || (65 ≤ b && b ≤ 90) || (97 ≤ b && b ≤ 122) || b = 32 || b = 95 || 128 ≤ b
 
 def isPrefixOf (p s : Bytes) : Bool := p.length ≤ s.length && s.take p.length == p
 
